@@ -104,7 +104,7 @@ def side_case(seed):
 def run(ctx):
     quick = ctx.tier == 'quick'
     lib.stage_proof(ctx, PROP_FILES, ['Check/C05.vo'])
-    n = 250 if quick else 3000
+    n = 250 if quick else 6000
     cases, metas = [], []
     for k in range(n):
         cs = ctx.rng.getrandbits(48)
@@ -123,7 +123,7 @@ def run(ctx):
         cases.append(lit)
         metas.append({'desc': {'gen': 'gen_int_case', 'case_seed': cs, 'case': d}, 'tags': {'op': 'pinv' if d['pinv'] else 'svd'}})
     bad = lib.stage_correspondence(ctx, 'svd', REQ, 'check_C05', cases, metas, show_fn='run_C05')
-    n_side = 300 if quick else 6000
+    n_side = 300 if quick else 18000
     if bad:
         n_side *= 5
     for k in range(n_side):
